@@ -128,6 +128,30 @@ def make_interp(ctx, data_checked=True, extra=None):
             return AList(list(src), 'tuple')
         return src
     ai.summaries['mido/messages/messages.py::SysexData'] = s_sysexdata
+
+    def s_deque(interp, args, kwargs, node):
+        return AList(list(interp.iterate(args[0], node)) if args else [], 'deque')
+    ai.summaries['collections.deque'] = s_deque
+
+    def deque_hook(interp, base, name, args, kwargs, node):
+        from .absint import _NO
+        if isinstance(base, AList) and base.kind == 'deque':
+            if name == 'popleft':
+                if not base.items:
+                    raise AbsRaise('IndexError', node, implicit=True)
+                return base.items.pop(0)
+            if name == 'pop':
+                if not base.items:
+                    raise AbsRaise('IndexError', node, implicit=True)
+                return base.items.pop()
+            if name == 'appendleft':
+                base.items.insert(0, args[0])
+                return None
+            if name == 'clear':
+                base.items.clear()
+                return None
+        return _NO
+    ai.method_hooks.append(deque_hook)
     if extra:
         ai.summaries.update(extra)
     return ai
